@@ -432,6 +432,39 @@ func signing(r *ev.Run) {
 		}
 		r.Nontrivial(fmt.Sprintf("seq:%v:%v", list, hist))
 	}
+	// a caller context that is already cancelled / past its deadline when Sign is entered: an error, never an empty success
+	for k, mode := range []string{"cancelled", "expired"} {
+		c := r.Case("sign-finished-context", k)
+		if c == nil {
+			continue
+		}
+		for _, ip := range ips {
+			text, _, _ := reply(c.Rand, 1)
+			byIP[ip].Set(func(context.Context, *proto.SSHCertificateSigningRequest) (*proto.SSHKey, error) {
+				return &proto.SSHKey{Key: text}, nil
+			})
+		}
+		for n := 1; n <= 3; n++ {
+			signer, err := crypki.NewSigner(crypki.SignerConfig{TLSClientKeyFile: clientKey, TLSClientCertFile: clientCert, TLSCACertFiles: []string{caPath}, CrypkiEndpoints: ips[:n], CrypkiPort: uint(port), Retries: 1, PerTryTimeout: 10 * time.Second})
+			if err != nil {
+				continue
+			}
+			ctx, cancel := context.WithCancel(context.Background())
+			if mode == "expired" {
+				cancel()
+				ctx, cancel = context.WithDeadline(context.Background(), time.Now().Add(-time.Second))
+			}
+			cancel()
+			r.Eval(1)
+			certs, comments, serr := signer.Sign(ctx, &proto.SSHCertificateSigningRequest{KeyMeta: &proto.KeyMeta{Identifier: "x"}, Principals: []string{"a"}, PublicKey: "k", Validity: 60})
+			if serr == nil && len(certs) == 0 {
+				r.Violation(c, "empty-success:finished-context:"+mode, fmt.Sprintf("%d endpoints, context %s before the call: certs=%v comments=%v err=nil", n, mode, certs, comments), nil)
+				break
+			}
+			r.Count("finished caller context -> error (or a genuine result)", 1)
+			r.Nontrivial(fmt.Sprintf("finished-context:%s:%d", mode, n))
+		}
+	}
 	// default retry configuration (Retries and PerTryTimeout left unset or partly set): a hanging first endpoint must not
 	// eat the caller's whole deadline. Costs ~10 s of retries and backoff (the only slow case of this check).
 	{
